@@ -1,4 +1,4 @@
-import Nstd.Seq.LemmasPtrSortAny
+import Nstd.Seq.LemmasPtrSortFrame
 /-
   Property C03, `List<T>::sort()` beyond the default `<` on `int`.
 
@@ -13,7 +13,8 @@ import Nstd.Seq.LemmasPtrSortAny
     of Props.lean is the instance) and a total preorder used as non-strict comparator such as `<=` — `sort_comparator`,
     `sort_nonstrict`, `sort_nonstrict_int`;
   * the quicksort is NOT stable                                — `sort_not_stable`;
-  * what an iterator held across `sort()` denotes              — `ptr_sort_iterators`.
+  * what an iterator held across `sort()` denotes              — `ptr_sort_iterators`;
+  * no write outside the chain's items                         — `ptr_sort_writes_chain_only`.
 -/
 namespace Nstd.Seq
 
@@ -120,6 +121,12 @@ theorem ptr_sort_comparator (lt : Int → Int → Bool) (p : Ptr.PList) (xs fs :
   obtain ⟨r, f1, f2⟩ := sort_any_comparator lt (xs.map p.val)
   rw [e2] at f1; cases f1
   exact ⟨p', e1, sl, e2, f2, Ptr.rep_sameLinks p p' xs fs s h sl⟩
+
+/-- … and the only fields `sort()` writes are the `value` fields of items OF THE CHAIN: the value at every other address — the
+    sentinel, the items on the free list (destroyed objects in C++), anything unallocated — is untouched.  Any comparison. -/
+theorem ptr_sort_writes_chain_only (lt : Int → Int → Bool) (p p' : Ptr.PList) (xs fs : List Nat) (s : LState)
+    (h : Ptr.Rep p xs fs s) (hs : Ptr.sortP lt p = some p') : ∀ a, a ∉ xs → p'.val a = p.val a :=
+  Ptr.sortP_frame lt p p' xs fs s h hs
 
 /-- What an iterator held across `sort()` denotes.  An iterator is an item address.  `sort()` (any comparison function)
     relinks nothing — `next`, `prev`, `_begin` are the same functions/values afterwards — so the iterator that designated
